@@ -345,21 +345,35 @@ impl<const D: usize> Sampler for SampleGenerator<D> {
         self.get_dimension()
     }
     fn image(&self) -> Tree {
+        // warm-up: a lazily initialised cache that happens to be part of the
+        // serialised form (a dimension hint, say) must not make two images of the same
+        // sampler differ just because one was taken before the first getter call
+        let _ = catch_unwind(AssertUnwindSafe(|| {
+            let _ = self.get_dimension();
+            let _ = self.get_dod();
+            let _ = self.get_num_edges();
+        }));
         store::to_tree(self).expect("SimStore cannot represent the sampler")
     }
     fn image_binary(&self) -> Tree {
+        let _ = catch_unwind(AssertUnwindSafe(|| {
+            let _ = self.get_dimension();
+        }));
         store::to_tree_binary(self).expect("SimStore cannot represent the sampler")
     }
     fn clone_box(&self) -> Box<dyn Sampler> {
         Box::new(self.clone())
     }
     fn to_json(&self) -> Result<String, String> {
+        let _ = catch_unwind(AssertUnwindSafe(|| self.get_dimension()));
         serde_json::to_string(self).map_err(|e| e.to_string())
     }
     fn to_json_pretty(&self) -> Result<String, String> {
+        let _ = catch_unwind(AssertUnwindSafe(|| self.get_dimension()));
         serde_json::to_string_pretty(self).map_err(|e| e.to_string())
     }
     fn to_json_value(&self) -> Result<serde_json::Value, String> {
+        let _ = catch_unwind(AssertUnwindSafe(|| self.get_dimension()));
         serde_json::to_value(self).map_err(|e| e.to_string())
     }
 }
